@@ -1034,7 +1034,8 @@ def run(ctx):
                                                  "configure" if (c.get("opt") or c.get("opt_list") or c.get("sched")) else "continue")] += 1
                 for sp in session_splits(cfg, ctx.thorough()):
                     run_case(ctx, drv, cfg, sp, True, scratch)
-                if time.time() - t0 > sess_budget + 15.0:
+                # (the time guard only limits the RANDOM histories: the fixed session blocks run on every machine load)
+                if i + 1 >= len(SESSION_FORCED) and time.time() - t0 > sess_budget + 15.0:
                     ctx.dist["session_stopped_on_time_budget_after_cfgs"] = i + 1
                     break
         # clone()'s in-memory path: copy.deepcopy(self) only succeeds for a dataset built with learn_scan_positions=False
